@@ -67,6 +67,7 @@ type c20in struct {
 	StartAfterSec int64 `json:"start_after_sec,omitempty"` // SetupServer returned at this instant (start_*: it was called)
 	StartAfterNs  int64 `json:"start_after_nsec,omitempty"`
 	scratch       string
+	Bulk          *bulkIn  `json:"bulk,omitempty"`
 	Conc          *concIn  `json:"conc,omitempty"`
 	Race          bool     `json:"race,omitempty"` // replay: run the concurrent scenarios in the -race child
 	Scenarios     []concIn `json:"scenarios,omitempty"`
@@ -135,6 +136,9 @@ var reqCountBodyRe = regexp.MustCompile(`^(-?\d+) \(max (-?\d+)\) until `)
 
 // runCase drives one limiter through the calls of a case.
 func runCase(in *c20in) ([]c20obs, error) {
+	if pre, ok := precomputed[in]; ok {
+		return pre, nil
+	}
 	start := time.Unix(in.StartSec, in.StartNsec)
 	if in.Kind == "mw-realtime" {
 		start = time.Now()
@@ -534,6 +538,17 @@ func runC20(c *lib.Ctx) error {
 
 	rng := rand.New(rand.NewSource(c.Seed))
 	ins := genCases(c, rng)
+	// very many addresses in one interval; a sample of the returning ones goes to the Coq model
+	bulk := bulkIn{Seed: c.Seed + 3, Addresses: 260_000, Returners: 3000, Max: 3}
+	if c.Thorough() {
+		bulk = bulkIn{Seed: c.Seed + 3, Addresses: 1_300_000, Returners: 20000, Max: 3}
+	}
+	bulkFails, bulkProj, bulkCalls := runBulk(c, bulk)
+	for _, f := range bulkFails {
+		c.Fail(f.Case, f.Key, f.What, f.Input)
+	}
+	c.Count(fmt.Sprintf("bulk:%d-addresses-in-one-interval", bulk.Addresses))
+	ins = append(ins, bulkProj...)
 
 	// real-time middleware cases sleep: run them side by side
 	obsAll := make([][]c20obs, len(ins))
@@ -620,7 +635,7 @@ func runC20(c *lib.Ctx) error {
 	// concurrent part: in-process stress, then the same under the race detector
 	nConc := concurrentPart(c, rng, rb, len(ins))
 
-	c.Res.Evaluations = len(ins) + nConc
+	c.Res.Evaluations = len(ins) + nConc + bulkCalls
 	c.Res.DistinctNontrivial = len(distinct)
 	c.Res.Rule = fmt.Sprintf("call sequences on one limiter (%d calls in %d sequences): adaptive boundary sequences (calls at reset+interval-1ns/+0/+1ns and other offsets), random walks in time over several intervals with 1-50 addresses, quota runs past max, saturating time differences and extreme intervals/max, CIDR block sets with edge addresses (IPv4, IPv6, v4-mapped, forwarded-for lists), the middleware with RemoteAddr/X-Forwarded-For variants (never-reset, always-reset and real-time intervals); plus concurrent scenarios (16 goroutines; barrier phases, two instants without barrier, HTTP through SetupServer's router incl. /reqcount) in-process and under the Go race detector. distinct = distinct (configuration, call sequence); non-trivial = at least one interval reset or one rejected request", nOps, len(keep))
 	for i := 0; i < 3 && i < len(ins); i++ {
@@ -647,6 +662,14 @@ func replayC20(c *lib.Ctx) error {
 	in, err := lib.LoadReplayInput[c20in](c.Replay)
 	if err != nil {
 		return err
+	}
+	if in.Bulk != nil {
+		fails, _, _ := runBulk(c, *in.Bulk)
+		for _, f := range fails {
+			c.Fail("replay", f.Key, f.What, f.Input)
+			fmt.Printf("replay C20: %s: %s\n", f.Key, f.What)
+		}
+		return nil
 	}
 	if in.Conc != nil {
 		if in.Race {
